@@ -91,8 +91,33 @@ pub fn worker(path: &str, mode: &str) {
 
 fn spawn(hfile: &Path, mode: &str) -> Option<Vec<Vec<String>>> {
     let exe = std::env::current_exe().unwrap();
-    let out = Command::new(exe).arg("c08worker").arg(hfile).arg(mode).stdout(Stdio::piped()).stderr(Stdio::null()).output().ok()?;
-    let text = String::from_utf8_lossy(&out.stdout);
+    // a history is at most 128 small generations: a worker that has not finished after two minutes is
+    // stuck (a call waiting for something an earlier call left behind); it is killed and reported as
+    // having produced no outcomes
+    let mut child = Command::new(exe).arg("c08worker").arg(hfile).arg(mode).stdout(Stdio::piped()).stderr(Stdio::null()).spawn().ok()?;
+    let mut stdout = child.stdout.take()?;
+    let reader = std::thread::spawn(move || {
+        let mut text = String::new();
+        let _ = std::io::Read::read_to_string(&mut stdout, &mut text);
+        text
+    });
+    let start = std::time::Instant::now();
+    loop {
+        match child.try_wait() {
+            Ok(Some(_)) => break,
+            Ok(None) => {
+                if start.elapsed() > std::time::Duration::from_secs(120) {
+                    let _ = child.kill();
+                    let _ = child.wait();
+                    let _ = reader.join();
+                    return None;
+                }
+                std::thread::sleep(std::time::Duration::from_millis(5));
+            }
+            Err(_) => return None,
+        }
+    }
+    let text = reader.join().ok()?;
     serde_json::from_str(text.lines().last().unwrap_or("")).ok()
 }
 
